@@ -295,7 +295,24 @@ def _inline_closure(body, name, label, log):
                     raise Undecided('%s: inline: call of `%s` inside a loop or another closure' % (label, name))
             # `NAME()?`: fine when the closure only leaves early with an Err (`?` / fail!), which `?` would propagate anyway
             is_try = after.lstrip().startswith('?') and not re.search(r'\breturn\b', mblock)
-            if not (is_ret or is_tail or is_try):
+            # value of a match arm whose `match` is itself the tail expression of the function
+            is_arm_tail = False
+            if before.endswith('=>') and re.match(r'\s*(,|\})', after):
+                ob = c.start()
+                depth = 0
+                while ob >= 0:
+                    ch = mrest[ob]
+                    if ch == '}':
+                        depth += 1
+                    elif ch == '{':
+                        if depth == 0:
+                            break
+                        depth -= 1
+                    ob -= 1
+                if ob >= 0 and re.search(r'\bmatch\b[^{};]*$', mrest[:ob]):
+                    cl = rsrc.match_close(mrest, ob)
+                    is_arm_tail = re.fullmatch(r'[\s,}]*', mrest[cl:]) is not None
+            if not (is_ret or is_tail or is_try or is_arm_tail):
                 raise Undecided('%s: inline: closure `%s` can leave early and is called outside return position' % (label, name))
         out.append(rest[i:c.start()])
         out.append(block)
@@ -528,7 +545,16 @@ def _emit_fn(fb, src, out, meta):
     body = re.sub(r'(?m)^([ \t]*)const ([A-Z_][A-Z0-9_]*)\s*:', r'\1let \2:', body)
     body = re.sub(r'(?m)^[ \t]*self\.verify_init\([^;]*\);[ \t]*\n', '', body)
     body = re.sub(r'(?m)^[ \t]*#\[(inline|allow|cfg_attr|deny)[^\]]*\]\s*\n', '', body)
+    names = []
     for nm in fb.inline:
+        if nm == '*':
+            # every parameterless local closure, in definition order (a closure may use the ones defined before it)
+            for cm in re.finditer(r'\blet\s+(?:mut\s+)?(\w+)\s*=\s*(?:move\s*)?\|\s*\|', rsrc.mask(body)):
+                if cm.group(1) not in names:
+                    names.append(cm.group(1))
+        elif nm not in names:
+            names.append(nm)
+    for nm in names:
         body = _inline_closure(body, nm, label, meta['rewrites'])
     for (var, call) in fb.drops:
         body = _explicit_drops(body, var, call, label, meta['rewrites'])
